@@ -43,6 +43,10 @@ def frameOps (fx : Bool) (ws : List String) : Option String :=
         | .err _ => "err"
         | .crash s _ => "crash:" ++ s.label)
     | _, _, _, _, _ => some "bad-op"
+  | ["deep", what, depth] =>
+    match depth.toNat? with
+    | some d => some (FrameCrash.deepOutcome fx what d)
+    | none => some "bad-op"
   | ["prim", name] =>
     some (match FrameCrash.sourceFacts.find? (fun p => p.1 == name) with
       | some p => p.2
